@@ -78,7 +78,7 @@ theorem absent_with_default_filled (es : List Entry) (pos : Post.Pos) (kvs : Lis
 /-- **C18 against the specification of applicable schemas, soundness**: every member added to the object at `pos` was
     absent and receives a default that an applicable schema declares for it. -/
 theorem C18_added_are_applicable_defaults (cfg : Cfg) (O : Oracles)
-    (hleak : cfg.leaksImportant = false) (hbound : cfg.addlItemsBound = false)
+    (hbound : cfg.addlItemsBound = false)
     (hO : cfg.floatTolerance = true → OExact O)
     (defs : String → Option Schema) (hdefs : DefsWf cfg defs) (n : Nat) (s : Schema)
     (hs : wf cfg (fun name => (defs name).isSome) s = true) (v : JVal) (hv : adm cfg v = true)
@@ -88,12 +88,12 @@ theorem C18_added_are_applicable_defaults (cfg : Cfg) (O : Oracles)
     ahas f kvs = false ∧ ∃ a ∈ appliesF O defs n s [] v, a.pos = pos ∧ a.field = f ∧ a.dflt = some d
       ∧ Spec.declaresDefault a.dflt = true := by
   obtain ⟨h1, e, he, h2, h3, h4, h5⟩ := added_members_justified _ pos kvs f d h
-  have hsim := PostProof.entriesF_sim cfg O hleak hbound hO defs hdefs n s hs [] v hv
+  have hsim := PostProof.entriesF_sim cfg O hbound hO defs hdefs n s hs [] v hv
   exact ⟨h1, e, (hsim e).mp he, h2, h3, h4, by rw [← PostProof.hasDefault_eq]; exact h5⟩
 
 /-- **completeness**: every absent member for which an applicable schema declares a default is filled -/
 theorem C18_applicable_defaults_are_added (cfg : Cfg) (O : Oracles)
-    (hleak : cfg.leaksImportant = false) (hbound : cfg.addlItemsBound = false)
+    (hbound : cfg.addlItemsBound = false)
     (hO : cfg.floatTolerance = true → OExact O)
     (defs : String → Option Schema) (hdefs : DefsWf cfg defs) (n : Nat) (s : Schema)
     (hs : wf cfg (fun name => (defs name).isSome) s = true) (v : JVal) (hv : adm cfg v = true)
@@ -102,7 +102,7 @@ theorem C18_applicable_defaults_are_added (cfg : Cfg) (O : Oracles)
     (habs : ahas a.field kvs = false) :
     ∃ d, (a.field, d) ∈ (entryFields (entriesF cfg O defs n s [] v) pos).filterMap fun f =>
         if ahas f kvs then none else (firstDefault (entriesF cfg O defs n s [] v) pos f).map fun d => (f, d) := by
-  have hsim := PostProof.entriesF_sim cfg O hleak hbound hO defs hdefs n s hs [] v hv
+  have hsim := PostProof.entriesF_sim cfg O hbound hO defs hdefs n s hs [] v hv
   exact absent_with_default_filled _ pos kvs a ((hsim a).mpr ha) hp (by rw [PostProof.hasDefault_eq]; exact hd) habs
 
 /-- the repaired configuration: every instance (both directions) -/
@@ -116,9 +116,9 @@ theorem C18_repaired (O : Oracles) (defs : String → Option Schema) (hdefs : De
     ∧ (∀ a ∈ appliesF O defs n s [] v, a.pos = pos → Spec.declaresDefault a.dflt = true → ahas a.field kvs = false →
       ∃ d, (a.field, d) ∈ (entryFields (entriesF Cfg.repaired O defs n s [] v) pos).filterMap fun f =>
         if ahas f kvs then none else (firstDefault (entriesF Cfg.repaired O defs n s [] v) pos f).map fun d => (f, d)) :=
-  ⟨fun f d h => C18_added_are_applicable_defaults Cfg.repaired O rfl rfl (fun h => by cases h) defs hdefs n s hs v
+  ⟨fun f d h => C18_added_are_applicable_defaults Cfg.repaired O rfl (fun h => by cases h) defs hdefs n s hs v
       (C01.adm_repaired v) pos kvs f d h,
-   fun a ha hp hd habs => C18_applicable_defaults_are_added Cfg.repaired O rfl rfl (fun h => by cases h) defs hdefs n s hs v
+   fun a ha hp hd habs => C18_applicable_defaults_are_added Cfg.repaired O rfl (fun h => by cases h) defs hdefs n s hs v
       (C01.adm_repaired v) pos kvs a ha hp hd habs⟩
 
 /-! non-vacuity: a schema with a defaulted property under an anyOf alternative meets the hypotheses -/
